@@ -1,6 +1,6 @@
 ---- MODULE ExportSignatures ----
 EXTENDS SpyneSignatures, Json, IOUtils, SequencesExt
-ASSUME JsonSerialize(IOEnv.OUT_FILE, SetToSeq(Cases))
+ASSUME JsonSerialize(IOEnv.OUT_FILE, SetToSeq(IF IOEnv.FAMILY = "any" THEN AnyCases ELSE Cases))
 VARIABLE x
 Init == x = 0
 Next == UNCHANGED x
